@@ -572,6 +572,13 @@ def r4_merges(repo, report):
                             adopt = (f"self.{a}" in gtxt and (" is None" in gtxt or "not " in gtxt or "== []" in gtxt)) or any(isinstance(x, ast.Assert) and f"self.{a}" in src(x) for x in stmts)
                             if adopt:
                                 merged.setdefault(a, []).append(("adopt", srcs))
+                                # an adopted ELEMENT must be of the kind the container hands out itself: the tallies are
+                                # defaultdicts of defaultdicts, and a plain dict put in their place fails (KeyError) on the
+                                # first later `+=` with a key it has not seen - i.e. with the third worker's statistics
+                                init_v = attrs.get(a)
+                                plain = (isinstance(val, ast.Call) and chain(val.func) == "dict") or isinstance(val, (ast.Dict, ast.DictComp))
+                                if isinstance(t, ast.Subscript) and plain and isinstance(init_v, ast.Call) and (chain(init_v.func) or "").endswith("defaultdict"):
+                                    problems.append(f"self.{a}[...] adopts a plain dict ({src(val)[:40]}) where the tally's own elements are defaulting dicts: the next merge that adds a new key to it raises KeyError")
                                 if srcs - {a}:
                                     problems.append(f"self.{a} adopts other.{sorted(srcs)}")
                                 continue
